@@ -370,3 +370,4 @@ PROP = C07()
 
 PROP.rule += (" Strata added while closing seeded changes (DESIGN section 10): "
               "comma-delimited rows with empty fields, odd DLM spellings, text index, run-on rows, second read into the same object, dtypes= dict/list, odd ASCII separators, Ctrl-Z tail, a negative column, a column of '#' tokens.")
+PROP.rule += ' Round 8: wrapped files whose every line holds a hyphen (ISO-date index, negative values).'
